@@ -1998,6 +1998,38 @@ func t2c19Label(c *Ctx, p *packages.Package, labelVar *types.Var, unknown *types
 		}
 		return true
 	})
+	if tVar == nil && getType != nil {
+		// GetType and Label share one decoder g(cert) (type, *KeyID): GetType is g's first result, and g's second result
+		// is the KeyID decoded from its parameter's KeyId (nil only together with the unknown type)
+		if g := t2sharedDecoder(p, getType, unknown); g != nil {
+			ast.Inspect(fd.Body, func(n ast.Node) bool {
+				as, ok := n.(*ast.AssignStmt)
+				if !ok || len(as.Rhs) != 1 || len(as.Lhs) != 2 {
+					return true
+				}
+				if call, callee := t2callee(p, as.Rhs[0]); call != nil && callee == types.Object(g) && len(call.Args) == 1 && t2obj(p, call.Args[0]) == certParam {
+					tVar, kVar = t2obj(p, as.Lhs[0]), t2obj(p, as.Lhs[1])
+				}
+				return true
+			})
+			if tVar != nil {
+				ast.Inspect(fd.Body, func(n ast.Node) bool {
+					as, ok := n.(*ast.AssignStmt)
+					if !ok || len(as.Rhs) != 1 || len(as.Lhs) == 0 {
+						return true
+					}
+					if ix, ok := t2unparen(as.Rhs[0]).(*ast.IndexExpr); ok && t2obj(p, ix.X) == types.Object(labelVar) && t2obj(p, ix.Index) == tVar {
+						lVar = t2obj(p, as.Lhs[0])
+						lookupPos = as.Pos()
+						if len(as.Lhs) == 2 {
+							okVar = t2obj(p, as.Lhs[1])
+						}
+					}
+					return true
+				})
+			}
+		}
+	}
 	c.Check(tVar != nil, rule, "Label|type obtained from GetType(cert)", fpos, "certType := GetType(cert) on Label's own parameter", "Label does not assign GetType(<its parameter>) to a variable")
 	c.Check(lVar != nil, rule, "Label|label looked up as "+labelVar.Name()+"[GetType(cert)]", w.Pos(lookupPos), "label := "+labelVar.Name()+"[certType]", "Label does not read "+labelVar.Name()+" at the GetType result")
 	c.Check(kVar != nil, rule, "Label|KeyID decoded from cert.KeyId", fpos, "k := keyid.Unmarshal(cert.KeyId) on Label's own parameter", "Label does not decode keyid.Unmarshal(<its parameter>.KeyId)")
@@ -2099,6 +2131,97 @@ func t2c19Label(c *Ctx, p *packages.Package, labelVar *types.Var, unknown *types
 	okRet := last != nil && len(last.Results) == 2 && t2isNilIdent(p, last.Results[1]) &&
 		(t2obj(p, last.Results[0]) == lVar || len(t2flattenAdd(last.Results[0])) == 3)
 	c.Check(okRet, rule, "Label|returns the built label with nil error", fpos, "return label, nil", "Label's final statement is not `return <label>, nil`")
+}
+
+// t2sharedDecoder: the package function g such that GetType(cert) is exactly g(cert)'s first result and g's second
+// result is the KeyID decoded by keyid.Unmarshal(<g's parameter>.KeyId), nil only where the first result is the
+// unknown type. nil when GetType has another shape.
+func t2sharedDecoder(p *packages.Package, getType *types.Func, unknown *types.Const) *types.Func {
+	gt := funcDecl(p, getType.Name())
+	if gt == nil || gt.Body == nil || gt.Type.Params == nil || len(gt.Type.Params.List) != 1 || len(gt.Type.Params.List[0].Names) != 1 {
+		return nil
+	}
+	gtParam := p.TypesInfo.Defs[gt.Type.Params.List[0].Names[0]]
+	var g *types.Func
+	switch len(gt.Body.List) {
+	case 2:
+		as, ok1 := gt.Body.List[0].(*ast.AssignStmt)
+		ret, ok2 := gt.Body.List[1].(*ast.ReturnStmt)
+		if !ok1 || !ok2 || len(as.Lhs) != 2 || len(as.Rhs) != 1 || len(ret.Results) != 1 {
+			return nil
+		}
+		call, callee := t2callee(p, as.Rhs[0])
+		f, isF := callee.(*types.Func)
+		if call == nil || !isF || len(call.Args) != 1 || t2obj(p, call.Args[0]) != gtParam || t2obj(p, ret.Results[0]) == nil || t2obj(p, ret.Results[0]) != t2obj(p, as.Lhs[0]) {
+			return nil
+		}
+		g = f
+	default:
+		return nil
+	}
+	if g.Pkg() != getType.Pkg() {
+		return nil
+	}
+	gd := funcDecl(p, g.Name())
+	if gd == nil || gd.Body == nil || gd.Recv != nil || gd.Type.Params == nil || len(gd.Type.Params.List) != 1 || len(gd.Type.Params.List[0].Names) != 1 {
+		return nil
+	}
+	gParam := p.TypesInfo.Defs[gd.Type.Params.List[0].Names[0]]
+	var kObj types.Object
+	nAssign := 0
+	ok := true
+	ast.Inspect(gd.Body, func(n ast.Node) bool {
+		switch x := n.(type) {
+		case *ast.FuncLit:
+			ok = false
+		case *ast.AssignStmt:
+			if len(x.Rhs) != 1 {
+				return true
+			}
+			if call, callee := t2callee(p, x.Rhs[0]); call != nil {
+				if f, isF := callee.(*types.Func); isF && f.Name() == "Unmarshal" && f.Pkg() != nil && strings.HasSuffix(f.Pkg().Path(), "/keyid") && len(call.Args) == 1 && len(x.Lhs) == 2 {
+					if sel, isSel := t2unparen(call.Args[0]).(*ast.SelectorExpr); isSel && sel.Sel.Name == "KeyId" && t2obj(p, sel.X) == gParam {
+						kObj = t2obj(p, x.Lhs[0])
+						nAssign++
+					}
+				}
+			}
+		}
+		return true
+	})
+	if !ok || kObj == nil || nAssign != 1 {
+		return nil
+	}
+	// kObj is assigned nowhere else, and every return hands out kObj or (unknown, nil)
+	ast.Inspect(gd.Body, func(n ast.Node) bool {
+		switch x := n.(type) {
+		case *ast.AssignStmt:
+			for i, l := range x.Lhs {
+				if t2obj(p, l) == kObj {
+					if call, callee := t2callee(p, x.Rhs[0]); !(i == 0 && len(x.Rhs) == 1 && call != nil && callee != nil && callee.Name() == "Unmarshal") {
+						ok = false
+					}
+				}
+			}
+		case *ast.ReturnStmt:
+			if len(x.Results) != 2 {
+				ok = false
+				return true
+			}
+			if t2obj(p, x.Results[1]) == kObj {
+				return true
+			}
+			if t2isNilIdent(p, x.Results[1]) && t2obj(p, x.Results[0]) == types.Object(unknown) {
+				return true
+			}
+			ok = false
+		}
+		return true
+	})
+	if !ok {
+		return nil
+	}
+	return g
 }
 
 // ---------------------------------------------------------------- C02 R4.extensions, R5.algonames
